@@ -389,11 +389,18 @@ def _process(ex, st, env, node):
     new = SeqOf(STR).fresh(ex.ctx, "state_after")
     st.assume(new.n >= 1)
     st.heap[st.heap[me.oid].fields["state"].oid].val = new
+    st.ghost["state_after_process"] = new
     return [(st, VNone())]
 
 
 def _logical_newline(ex, st, env, node):
+    # the logical newline may change the cleaner's state (it leaves the found-a-star sub-state of a block comment):
+    # whatever is decided AFTER it must look at the state again
     st.ghost["calls"] = st.ghost.get("calls", ()) + (("logical_newline", ()),)
+    me = env["self"]
+    new = SeqOf(STR).fresh(ex.ctx, "state_after_newline")
+    st.assume(new.n >= 1)
+    st.heap[st.heap[me.oid].fields["state"].oid].val = new
     return [(st, VNone())]
 
 
@@ -459,13 +466,16 @@ def _(A, R):
     has_nl = z3.SubString(line, n - 1, 1) == z3.StringVal("\n")
     end = z3.If(has_nl, n - 1, n)
     continued = z3.And(end > 0, z3.SubString(line, end - 1, 1) == z3.StringVal("\\"))
-    st_after = R.new.cleaner.state
-    in_block = st_after.arr[st_after.n - 1] == z3.StringVal("IN_BLOCK_COMMENT")
-    ends_logical = z3.And(z3.Not(continued), z3.Not(in_block))
+    st_final = R.new.cleaner.state
+    st_proc = R.st.ghost.get("state_after_process", st_final)
+    blk = z3.StringVal("IN_BLOCK_COMMENT")
+    newline_due = z3.And(z3.Not(continued), st_proc.arr[st_proc.n - 1] != blk)       # decided on the state the cleaner left
+    ends_logical = z3.And(z3.Not(continued), st_final.arr[st_final.n - 1] != blk)   # decided AFTER the logical newline
     out = []
     # expected shapes of the call sequence
     shape_end = ["phys_init", "process", "logical_newline", "category", "?add", "join", "physical_update", "?yield", "physical_reset"]
     shape_mid = ["phys_init", "process", "category", "?add", "join"]
+    shape_nl_open = ["phys_init", "process", "logical_newline", "category", "?add", "join"]      # the newline left a block comment open
 
     def matches(shape):
         it = [x for x in names]
@@ -481,9 +491,11 @@ def _(A, R):
                 exp.append(s_)
         return it == exp
     out.append(("at a logical line end: reset buffer, clean, logical newline, THEN test the line for blankness, record it, join, "
-                "close the logical line", z3.Implies(ends_logical, z3.BoolVal(matches(shape_end)))))
+                "close the logical line", z3.Implies(z3.And(newline_due, ends_logical), z3.BoolVal(matches(shape_end)))))
     out.append(("inside a continued line / block comment: reset buffer, clean, test for blankness, record, join - nothing else",
-                z3.Implies(z3.Not(ends_logical), z3.BoolVal(matches(shape_mid)))))
+                z3.Implies(z3.Not(newline_due), z3.BoolVal(matches(shape_mid)))))
+    out.append(("a logical newline that leaves a block comment open does not close the logical line (the state is read again)",
+                z3.Implies(z3.And(newline_due, z3.Not(ends_logical)), z3.BoolVal(matches(shape_nl_open)))))
     # arguments
     for nm, args in calls:
         if nm == "process":
